@@ -14,7 +14,7 @@
 (* generators whose whole input is known and short, re-derives the state   *)
 (* and every result from the declarative reference as well.                *)
 (***************************************************************************)
-EXTENDS Generator, HashCodec, Json, IOUtils, TLCExt
+EXTENDS Generator, HashCodec, Alloc, Json, IOUtils, TLCExt
 
 Rec == ndJsonDeserialize(IOEnv.TRACE)
 AbsLimit == 96          \* re-derive from Reference.tla when at most this many bytes were fed
@@ -37,7 +37,7 @@ JsonStateShapeOk(v, st) ==
 
 Ev == Rec[l]
 IsEvent(k) == l <= Len(Rec) /\ Ev.e = k /\ l' = l + 1
-Clean == Ev.p = "" /\ Ev.a = 0      \* no panic, no heap allocation (C17, C18)
+Clean == Ev.p = "" /\ AllocOk(Ev.e, Ev.a)      \* no panic (C17), allocation budget (C18, Alloc.tla)
 
 \* A successful result is a hash the strict parser would accept (C15) and
 \* carries the code of the fed length (C09).
@@ -85,7 +85,7 @@ TUpdate ==
        /\ gens' = [gens EXCEPT ![Ev.g] = [s EXCEPT !.st = new, !.known = known2, !.fed = fed2]]
 
 TClone ==
-    /\ IsEvent("gen_clone") /\ Ev.p = ""
+    /\ IsEvent("gen_clone") /\ Clean
     /\ gens[Ev.g].live
     /\ StateOfJson(gens[Ev.g].v, Ev.st) = gens[Ev.g].st
     /\ gens' = [gens EXCEPT ![Ev.g2] = gens[Ev.g]]
